@@ -154,10 +154,13 @@ Section Agreement.
   (* false = the code as it is; true = next() before the fix 'rekey-merged-into-batch' *)
   Variable merge : bool.
 
+  (* false = the code as it is; true = pickWait before fix 28f32da (re-keys drawn inside a channel) *)
+  Variable chan_rekey : bool.
+
   Notation state := (st priv point).
-  Notation step := (step pub dh merge).
-  Notation run := (run pub dh merge).
-  Notation safe := (safe pub dh merge).
+  Notation step := (step pub dh merge chan_rekey).
+  Notation run := (run pub dh merge chan_rekey).
+  Notation safe := (safe pub dh merge chan_rekey).
   Notation settled := (settled pub).
 
   (* whatever the length of the ECDH output (shorter than the share: the stale tail stays), two
@@ -170,7 +173,7 @@ Section Agreement.
     c_share C = s_share S /\ c_pub C = pub (s_priv S).
 
   (* the invariant of every admissible history, phase by phase *)
-  Definition inv (s : state) : Prop :=
+  Definition inv0 (s : state) : Prop :=
     let C := cl s in
     let S := sv s in
     match upw s, dnw s with
@@ -203,20 +206,29 @@ Section Agreement.
       end
     | Some _, Some _ => False
     end.
+  (* while a channel is open nothing else is in flight, the server knows the client, and the
+     connection's key copy IS the server Session's share *)
+  Definition chan_inv (s : state) : Prop :=
+    match chn s with
+    | None => True
+    | Some ck => waiting s = false /\ upw s = None /\ dnw s = None /\ s_reg (sv s) = true /\ ck = s_share (sv s)
+    end.
+  Definition inv (s : state) : Prop := inv0 s /\ chan_inv s.
 
   Lemma inv_init : forall k0 s0, inv (init pub k0 s0).
-  Proof. intros. unfold inv, init. cbn. ands; try reflexivity. discriminate. Qed.
+  Proof. intros. split; [|exact I]. unfold inv0, init. cbn. ands; try reflexivity. discriminate. Qed.
 
   Local Opaque zero_share fill_shared xor_op is_synced.
 
-  Lemma inv_step : forall e s, ok_event merge e s = true -> inv s -> inv (step e s).
+  (* while no channel is open: the exchange machine *)
+  Lemma inv0_step : forall e s, chn s = None -> ok_event merge chan_rekey e s = true -> inv0 s -> inv0 (step e s).
   Proof.
-    intros e [[cp cpb cs cn] [sr sp ss] up dn w cseen sseen] L I.
-    unfold inv in I. cbn [cl sv upw dnw waiting c_next c_share c_pub c_priv s_reg s_priv s_share] in I.
+    intros e [[cp cpb cs cn] [sr sp ss] up dn w cseen sseen ch] C L I. cbn [chn] in C. subst ch.
+    unfold inv0 in I. cbn [cl sv upw dnw waiting c_next c_share c_pub c_priv s_reg s_priv s_share] in I.
     destruct up as [m|]; destruct dn as [d|]; try contradiction.
     - (* request in flight *)
       destruct I as [Hw I]. subst w.
-      destruct e; unfold inv; cbn; try (split; [reflexivity|]; exact I).
+      destruct e; unfold inv0; cbn; try (split; [reflexivity|]; exact I).
       + (* RekeyRecv *)
         unfold srv_handle. cbn.
         destruct sr.
@@ -257,7 +269,7 @@ Section Agreement.
         * contradiction.
     - (* reply in flight *)
       destruct I as [Hw I]. subst w.
-      destruct e; unfold inv; cbn; try (split; [reflexivity|]; exact I).
+      destruct e; unfold inv0; cbn; try (split; [reflexivity|]; exact I).
       + (* HelloReply *)
         destruct d as [pb| |body]; cbn; try (split; [reflexivity|]; exact I).
         destruct I as [Hz [Hn Hs]]. subst cs cn. unfold key_check_sync, key_session_sync. cbn.
@@ -291,7 +303,7 @@ Section Agreement.
         destruct cn; reflexivity.
     - (* idle *)
       destruct I as [Hw [Hn Hs]]. subst w cn.
-      destruct e; unfold inv; cbn; try (ands; try reflexivity; exact Hs).
+      destruct e; unfold inv0; cbn; try (ands; try reflexivity; exact Hs).
       + (* Hello *)
         destruct sr; cbn; ands; try reflexivity; try exact Hs.
       + (* RekeySend *)
@@ -301,6 +313,50 @@ Section Agreement.
         split; [reflexivity|]. exists k. ands; try reflexivity. exact Hs.
       + (* Forget *)
         ands; try reflexivity. discriminate.
+      + (* ChanStart *)
+        destruct sr; cbn; ands; try reflexivity; exact Hs.
+  Qed.
+
+  (* no channel before, a channel after: only ChanStart does that, from an idle registered state *)
+  Lemma chan_inv_step_none : forall e s, chn s = None -> inv0 s -> chan_inv (step e s).
+  Proof.
+    intros e [[cp cpb cs cn] [sr sp ss] up dn w cseen sseen ch] C I. cbn [chn] in C. subst ch.
+    unfold chan_inv.
+    destruct e;
+      try (clear I; destruct up as [[?|?|? ?|? ?]|]; destruct dn as [[?| |?]|]; destruct w; destruct sr; destruct cn;
+           cbn; unfold busy, send, srv_handle, key_session_sync; cbn;
+           repeat match goal with
+                  | |- context [if ?x then _ else _] => destruct x; cbn
+                  end; exact Logic.I).
+    (* ChanStart *)
+    cbn. unfold busy. cbn. rewrite orb_false_r.
+    destruct w; cbn; [exact Logic.I|]. destruct sr; cbn; [|exact Logic.I].
+    unfold inv0 in I. cbn in I.
+    destruct up; destruct dn; try contradiction; try (destruct I as [Hw _]; discriminate Hw).
+    ands; reflexivity.
+  Qed.
+
+  (* a channel is open: every event either is no part of the channel (and does nothing), or moves a
+     Packet through it without touching a key, or closes it *)
+  Lemma inv_step_chan : forall e s ck,
+    chn s = Some ck -> ok_event merge chan_rekey e s = true -> inv s -> inv (step e s).
+  Proof.
+    intros e [[cp cpb cs cn] [sr sp ss] up dn w cseen sseen ch] ck C L [I0 IC]. cbn [chn] in C. subst ch.
+    unfold chan_inv in IC. cbn in IC. destruct IC as [W [U [D [R K]]]]. subst w up dn sr ck.
+    unfold inv0 in I0. cbn in I0. destruct I0 as [_ [N S]]. subst cn.
+    destruct e; unfold inv, inv0, chan_inv; cbn; unfold chan_up, key_check_sync; cbn;
+      try (ands; try reflexivity; try exact S; fail).
+    - (* Forget *) ands; try reflexivity; try discriminate; try exact Logic.I.
+    - (* ChanTick: admissible only when it is the plain keep-alive *)
+      unfold ok_event in L. cbn in L. apply negb_true_iff in L. rewrite L. unfold chan_up, key_check_sync. cbn.
+      ands; try reflexivity; exact S.
+  Qed.
+
+  Lemma inv_step : forall e s, ok_event merge chan_rekey e s = true -> inv s -> inv (step e s).
+  Proof.
+    intros e s L I. destruct (chn s) as [ck|] eqn:C.
+    - exact (inv_step_chan e s ck C L I).
+    - destruct I as [I0 _]. split; [apply inv0_step; assumption|apply chan_inv_step_none; assumption].
   Qed.
 
   Lemma inv_run : forall h s, safe h s = true -> inv s -> inv (run h s).
@@ -310,10 +366,11 @@ Section Agreement.
     unfold Keys.run. cbn [fold_left]. apply IH; [exact Lh|]. apply inv_step; assumption.
   Qed.
 
-  Lemma lossless_event_ok : forall e (s : state), lossless_event merge e = true -> ok_event merge e s = true.
-  Proof. intros e s H. destruct e; try reflexivity; try discriminate H. exact H. Qed.
+  Lemma lossless_event_ok : forall e (s : state),
+    lossless_event merge chan_rekey e = true -> ok_event merge chan_rekey e s = true.
+  Proof. intros e s H. destruct e; try reflexivity; try discriminate H; exact H. Qed.
 
-  Lemma lossless_safe : forall h s, lossless merge h = true -> safe h s = true.
+  Lemma lossless_safe : forall h s, lossless merge chan_rekey h = true -> safe h s = true.
   Proof.
     induction h as [|e h IH]; intros s L; [reflexivity|].
     cbn [lossless forallb] in L. apply andb_true_iff in L. destruct L as [Le Lh].
@@ -324,7 +381,7 @@ Section Agreement.
     inv s -> waiting s = false -> s_reg (sv s) = true ->
     c_share (cl s) = s_share (sv s) /\ c_next (cl s) = None /\ c_pub (cl s) = pub (s_priv (sv s)).
   Proof.
-    intros s I W R. unfold inv in I.
+    intros s [I _] W R. unfold inv0 in I.
     destruct (upw s) as [m|]; destruct (dnw s) as [d|]; try contradiction.
     - destruct I as [Hw _]. congruence.
     - destruct I as [Hw _]. congruence.
@@ -332,9 +389,10 @@ Section Agreement.
   Qed.
 
   (* MAIN THEOREM.  After ANY history from the initial state (handshakes, re-keys, traffic, write
-     failures, the server forgetting the client, re-registrations, replies lost while no key
-     announcement is pending), whenever the client is between two exchanges and the server knows
-     it, both ends hold the same share and no re-key is pending. *)
+     failures, the server forgetting the client, re-registrations, channels with traffic and idle
+     ticks, replies lost while no key announcement is pending), whenever the client is not inside
+     an exchange (idle, or inside a channel) and the server knows it, both ends hold the same share
+     and no re-key is pending. *)
   Theorem share_agree_safe : forall h k0 s0,
     safe h (init pub k0 s0) = true ->
     let s := run h (init pub k0 s0) in
@@ -347,22 +405,82 @@ Section Agreement.
 
   (* the same with the state-independent condition: no reply is lost *)
   Theorem share_agree_lossless : forall h k0 s0,
-    lossless merge h = true ->
+    lossless merge chan_rekey h = true ->
     let s := run h (init pub k0 s0) in
     waiting s = false -> s_reg (sv s) = true ->
     c_share (cl s) = s_share (sv s) /\ c_next (cl s) = None.
   Proof. intros h k0 s0 L. apply share_agree_safe. apply lossless_safe. exact L. Qed.
 
-  Lemma settled_inv : forall s, settled s -> inv s.
+  (* ---- channels ---- *)
+  (* in every state that satisfies the invariant and has a channel open, the connection's key copy
+     is the share of BOTH Sessions, no re-key is pending, and a Packet sent through the channel in
+     either direction is seen unchanged by the other side's handler; an idle tick changes no key *)
+  Lemma chan_state_ok : forall s ck,
+    inv s -> chn s = Some ck ->
+    ck = c_share (cl s) /\ ck = s_share (sv s) /\ c_next (cl s) = None /\ s_reg (sv s) = true /\ waiting s = false /\
+    (forall p, let s' := step (ChanUp p) s in
+               s_seen s' = deliver p (s_seen s) /\ c_seen s' = c_seen s /\ cl s' = cl s /\ sv s' = sv s /\ chn s' = chn s) /\
+    (forall q, let s' := step (ChanDown q) s in
+               c_seen s' = deliver q (c_seen s) /\ s_seen s' = s_seen s /\ cl s' = cl s /\ sv s' = sv s /\ chn s' = chn s) /\
+    (forall k, ok_event merge chan_rekey (ChanTick k) s = true ->
+               let s' := step (ChanTick k) s in
+               cl s' = cl s /\ sv s' = sv s /\ chn s' = chn s /\ c_seen s' = c_seen s /\ s_seen s' = s_seen s).
   Proof.
-    intros s [W [U [D [R [N [A P]]]]]]. unfold inv. rewrite U, D. ands; try assumption.
-    intros _. split; assumption.
+    intros [[cp cpb cs cn] [sr sp ss] up dn w cseen sseen ch] ck [I0 IC] C. cbn [chn] in C. subst ch.
+    unfold chan_inv in IC. cbn in IC. destruct IC as [W [U [D [R K]]]]. subst w up dn sr ck.
+    unfold inv0 in I0. cbn in I0. destruct I0 as [_ [N S]]. subst cn.
+    destruct (S eq_refl) as [A _]. cbn in A. subst ss.
+    cbn. ands; try reflexivity.
+    - intros p. unfold chan_up, key_check_sync. cbn.
+      Local Transparent xor_op. rewrite xor_involution. Local Opaque xor_op. ands; reflexivity.
+    - intros q. Local Transparent xor_op. rewrite xor_involution. Local Opaque xor_op. ands; reflexivity.
+    - intros k L. unfold ok_event in L. cbn in L. apply negb_true_iff in L. rewrite L.
+      unfold chan_up, key_check_sync. cbn. ands; reflexivity.
   Qed.
 
-  Lemma inv_settled : forall s, inv s -> waiting s = false -> s_reg (sv s) = true -> settled s.
+  (* EVERY payload exchanged inside a channel decrypts to the original, for ALL admissible histories
+     (channel start, traffic both ways, idle ticks, channel end, re-keys before and after channels):
+     whatever state a history reaches, if a channel is open there, then ... *)
+  Theorem channel_payload_roundtrip : forall h k0 s0,
+    safe h (init pub k0 s0) = true ->
+    let s := run h (init pub k0 s0) in
+    forall ck, chn s = Some ck ->
+    ck = c_share (cl s) /\ ck = s_share (sv s) /\ c_next (cl s) = None /\
+    (forall p, s_seen (step (ChanUp p) s) = deliver p (s_seen s)) /\
+    (forall q, c_seen (step (ChanDown q) s) = deliver q (c_seen s)).
   Proof.
-    intros s I W R. pose proof (inv_idle_agree s I W R) as [A [N P]].
-    unfold inv in I. destruct (upw s) as [m|] eqn:U; destruct (dnw s) as [d|] eqn:D; try contradiction.
+    intros h k0 s0 L s ck C.
+    destruct (chan_state_ok s ck (inv_run h _ L (inv_init k0 s0)) C) as [A [B [N [_ [_ [U [Dn _]]]]]]].
+    ands; try assumption.
+    - intros p. apply (U p).
+    - intros q. apply (Dn q).
+  Qed.
+
+  (* no key changes while a channel is open: from the event that opens it to the event that closes
+     it, whatever admissible events happen in between *)
+  Lemma chan_keys_frozen_step : forall e s ck,
+    inv s -> chn s = Some ck -> ok_event merge chan_rekey e s = true ->
+    chn (step e s) = Some ck -> cl (step e s) = cl s /\ sv (step e s) = sv s.
+  Proof.
+    intros e [[cp cpb cs cn] [sr sp ss] up dn w cseen sseen ch] ck [I0 IC] C L. cbn [chn] in C. subst ch.
+    unfold chan_inv in IC. cbn in IC. destruct IC as [W [U [D [R K]]]]. subst w up dn sr ck.
+    unfold inv0 in I0. cbn in I0. destruct I0 as [_ [N S]]. subst cn.
+    destruct e; cbn; unfold chan_up, key_check_sync; cbn; intros E; try (split; reflexivity); try discriminate E.
+    unfold ok_event in L. cbn in L. apply negb_true_iff in L. rewrite L in *. cbn. split; reflexivity.
+  Qed.
+
+  Lemma settled_inv : forall s, settled s -> inv s.
+  Proof.
+    intros s [W [U [D [R [N [A [P C]]]]]]]. split.
+    - unfold inv0. rewrite U, D. ands; try assumption. intros _. split; assumption.
+    - unfold chan_inv. rewrite C. exact I.
+  Qed.
+
+  Lemma inv_settled : forall s, inv s -> waiting s = false -> s_reg (sv s) = true -> chn s = None -> settled s.
+  Proof.
+    intros s I W R C. pose proof (inv_idle_agree s I W R) as [A [N P]].
+    destruct I as [I _].
+    unfold inv0 in I. destruct (upw s) as [m|] eqn:U; destruct (dnw s) as [d|] eqn:D; try contradiction.
     - destruct I as [Hw _]. congruence.
     - destruct I as [Hw _]. congruence.
     - unfold Keys.settled. rewrite U, D. ands; try assumption; reflexivity.
@@ -378,7 +496,7 @@ Section Agreement.
     intros k0 s0 k q.
     match goal with |- context [run ?h ?x] => set (s := run h x) end. cbv zeta.
     assert (E : s = mkSt (mkC k (pub s0) (fill_shared zero_share (dh k (pub s0))) None)
-                         (mkS true s0 (fill_shared zero_share (dh s0 (pub k)))) None None false [] []).
+                         (mkS true s0 (fill_shared zero_share (dh s0 (pub k)))) None None false [] [] None).
     { subst s. unfold Keys.run, init. cbn [fold_left]. cbn. unfold srv_handle. cbn.
       unfold key_session_sync, key_check_sync. cbn. rewrite is_synced_zero. reflexivity. }
     rewrite E. cbn. ands; try reflexivity.
@@ -386,14 +504,14 @@ Section Agreement.
   Qed.
 
   (* every sequence of re-keys (complete, failing at the write, interleaved with any traffic,
-     with re-registrations) from any settled state: whenever the client is idle and registered
-     the ends agree again -- for every ECDH output, of any length *)
+     with re-registrations and channels) from any settled state: whenever the client is idle,
+     registered and outside a channel the ends are settled again -- for every ECDH output, of any length *)
   Theorem share_agree_rekey : forall h s,
     settled s -> safe h s = true ->
     let s' := run h s in
-    waiting s' = false -> s_reg (sv s') = true -> settled s'.
+    waiting s' = false -> s_reg (sv s') = true -> chn s' = None -> settled s'.
   Proof.
-    intros h s S L s' W R. apply inv_settled; try assumption.
+    intros h s S L s' W R C. apply inv_settled; try assumption.
     apply inv_run; [exact L|apply settled_inv; exact S].
   Qed.
 
@@ -407,62 +525,69 @@ Section Agreement.
     c_priv (cl s') = k /\
     c_seen s' = deliver q (c_seen s).        (* the reply written under the copy of the old key is readable *)
   Proof.
-    intros [[cp cpb cs cn] [sr sp ss] up dn w cseen sseen] k q S.
-    destruct S as [W [U [D [R [N [A P]]]]]].
-    cbn [cl sv upw dnw waiting c_next c_share c_pub c_priv s_reg s_priv s_share] in *.
-    subst w up dn sr cn ss cpb.
+    intros [[cp cpb cs cn] [sr sp ss] up dn w cseen sseen ch] k q S.
+    destruct S as [W [U [D [R [N [A [P C]]]]]]].
+    cbn [cl sv upw dnw waiting c_next c_share c_pub c_priv s_reg s_priv s_share chn] in *.
+    subst w up dn sr cn ss cpb ch.
     match goal with |- context [run ?h ?s0] => set (s' := run h s0) end.
     assert (E : s' = mkSt (mkC k (pub sp) (fill_shared cs (dh k (pub sp))) None)
                           (mkS true sp (fill_shared cs (dh sp (pub k)))) None None false
-                          (deliver (xor_op (xor_op q cs) cs) cseen) sseen).
+                          (deliver (xor_op (xor_op q cs) cs) cseen) sseen None).
     { subst s'. unfold Keys.run. cbn [fold_left]. cbn.
       unfold srv_handle. cbn. rewrite zlist_eqb_refl. cbn. unfold key_check_sync. cbn. reflexivity. }
-    rewrite E. cbn. rewrite xor_involution. ands; try reflexivity.
+    rewrite E. cbn. Local Transparent xor_op. rewrite xor_involution. Local Opaque xor_op. ands; try reflexivity.
     unfold Keys.settled. cbn. ands; try reflexivity. rewrite dh_comm. reflexivity.
   Qed.
 
   (* a failed write of the announcement leaves both ends exactly where they were *)
   Theorem write_fail_reverts : forall s k,
-    waiting s = false -> c_next (cl s) = None ->
+    waiting s = false -> chn s = None -> c_next (cl s) = None ->
     let s' := run [RekeySend k; WriteFail] s in
     cl s' = cl s /\ sv s' = sv s /\ waiting s' = false /\ upw s' = None /\ dnw s' = None.
   Proof.
-    intros [[cp cpb cs cn] [sr sp ss] up dn w cseen sseen] k W N.
-    cbn [cl sv upw dnw waiting c_next] in *. subst w cn.
+    intros [[cp cpb cs cn] [sr sp ss] up dn w cseen sseen ch] k W C N.
+    cbn [cl sv upw dnw waiting c_next chn] in *. subst w cn ch.
     unfold Keys.run. cbn. ands; reflexivity.
   Qed.
 
   (* a reply lost while NO announcement is pending changes no key either *)
   Theorem reply_lost_harmless : forall s p,
-    waiting s = false -> c_next (cl s) = None ->
+    waiting s = false -> chn s = None -> c_next (cl s) = None ->
     (let s' := run [DataSend p; ReplyLost] s in cl s' = cl s /\ sv s' = sv s /\ waiting s' = false) /\
     (forall q, let s' := run [DataSend p; RekeyRecv q; ReplyLost] s in
                cl s' = cl s /\ sv s' = sv s /\ waiting s' = false).
   Proof.
-    intros [[cp cpb cs cn] [sr sp ss] up dn w cseen sseen] p W N.
-    cbn [cl sv upw dnw waiting c_next] in *. subst w cn.
+    intros [[cp cpb cs cn] [sr sp ss] up dn w cseen sseen ch] p W C N.
+    cbn [cl sv upw dnw waiting c_next chn] in *. subst w cn ch.
     split; [|intros q]; unfold Keys.run; cbn; unfold srv_handle; cbn; destruct sr; cbn; ands; reflexivity.
   Qed.
 
   (* under agreement each side's handler sees exactly what the other side sent *)
   Theorem payload_roundtrip : forall s p q,
-    waiting s = false -> s_reg (sv s) = true -> c_next (cl s) = None -> agree s ->
+    waiting s = false -> chn s = None -> s_reg (sv s) = true -> c_next (cl s) = None -> agree s ->
     let s' := run [DataSend p; RekeyRecv q; ReplyRecv] s in
     s_seen s' = deliver p (s_seen s) /\ c_seen s' = deliver q (c_seen s) /\ cl s' = cl s /\ sv s' = sv s.
   Proof.
-    intros [[cp cpb cs cn] [sr sp ss] up dn w cseen sseen] p q W R N A.
-    unfold agree in A. cbn [cl sv upw dnw waiting c_next c_share s_reg s_share] in *. subst w sr cn ss.
+    intros [[cp cpb cs cn] [sr sp ss] up dn w cseen sseen ch] p q W C R N A.
+    unfold agree in A. cbn [cl sv upw dnw waiting c_next c_share s_reg s_share chn] in *. subst w sr cn ss ch.
     unfold Keys.run. cbn. unfold srv_handle. cbn. unfold key_check_sync. cbn.
-    rewrite !xor_involution. ands; reflexivity.
+    Local Transparent xor_op. rewrite !xor_involution. Local Opaque xor_op. ands; reflexivity.
   Qed.
 End Agreement.
+
+(* pick(): a client inside a channel never reaches keyNextSync *)
+Lemma pick_no_rekey_in_channel : forall queued i, pick_model queued true true i <> PDraw.
+Proof. intros [|] [|]; discriminate. Qed.
+Lemma tick_never_draws_in_channel : tick_draws true = false /\ tick_draws false = true.
+Proof. split; reflexivity. Qed.
 
 (* ---- what goes wrong when an acknowledgement is lost: explicit histories in the toy agreement ---- *)
 Lemma toy_comm : forall a b, toy_dh a (toy_pub b) = toy_dh b (toy_pub a).
 Proof. intros. unfold toy_dh, toy_pub. rewrite (Z.mul_comm a b). reflexivity. Qed.
 
-Definition toy_run := run toy_pub toy_dh false.
-Definition toy_run_merge := run toy_pub toy_dh true.      (* next() before the fix *)
+Definition toy_run := run toy_pub toy_dh false false.
+Definition toy_run_merge := run toy_pub toy_dh true false.      (* next() before the fix *)
+Definition toy_run_chan := run toy_pub toy_dh false true.      (* pickWait before fix 28f32da *)
 Definition toy_init := init toy_pub 0 7.
 Definition handshake : list (event Z) := [Hello 11; RekeyRecv []; HelloReply].
 Definition shares_differ (s : st Z Z) : bool := negb (zlist_eqb (c_share (cl s)) (s_share (sv s))).
@@ -493,7 +618,7 @@ Definition reregister_lost_later : list (event Z) :=
 Lemma reply_lost_after_processing_refuted :
   let s := toy_run lost_after toy_init in
   s_seen s <> [[1; 2; 3]] /\ c_seen s <> [[4; 5; 6]] /\ shares_differ s = false /\
-  safe toy_pub toy_dh false lost_after toy_init = false.
+  safe toy_pub toy_dh false false lost_after toy_init = false.
 Proof. cbv zeta. ands; try (vm_compute; reflexivity); vm_compute; intros H; discriminate H. Qed.
 
 (* (b) the sender is NOT left on the old key, and the ends differ for good *)
@@ -504,7 +629,7 @@ Lemma announcement_lost_refuted :
   c_share (cl s) <> c_share (cl s0) /\ s_share (sv s) = s_share (sv s0) /\
   shares_differ (toy_run undelivered_later toy_init) = true /\
   s_seen (toy_run undelivered_later toy_init) <> [[1; 2; 3]; [1; 2; 3]] /\
-  safe toy_pub toy_dh false undelivered toy_init = false.
+  safe toy_pub toy_dh false false undelivered toy_init = false.
 Proof. cbv zeta. ands; try (vm_compute; reflexivity); vm_compute; intros H; discriminate H. Qed.
 
 (* (c) regression witness for the repaired next(): with merge = true the same history leaves the
@@ -522,7 +647,24 @@ Lemma reregister_reply_lost_refuted :
   let s := toy_run reregister_lost toy_init in
   waiting s = false /\ s_reg (sv s) = true /\ shares_differ s = true /\ c_share (cl s) = zero_share /\
   s_seen s <> [[1; 2; 3]] /\ shares_differ (toy_run reregister_lost_later toy_init) = true /\
-  safe toy_pub toy_dh false reregister_lost toy_init = false.
+  safe toy_pub toy_dh false false reregister_lost toy_init = false.
+Proof. cbv zeta. ands; try (vm_compute; reflexivity); vm_compute; intros H; discriminate H. Qed.
+
+(* (e) regression witness for fix 28f32da (and for any change that lets pick() reach keyNextSync
+       while a channel is open): the idle tick draws a re-key inside the channel; both SESSIONS agree
+       afterwards, but the connection's key copy is stale and every later payload is garbled both ways;
+       on the code as it is the tick is a keep-alive and everything arrives *)
+Definition chan_rekeyed : list (event Z) :=
+  handshake ++ [ChanStart; ChanUp [1; 2; 3]; ChanDown [4; 5; 6]; ChanTick 13; ChanUp [7; 8; 9]; ChanDown [10; 11; 12]].
+Lemma rekey_in_channel_refuted_before_fix :
+  (let s := toy_run_chan chan_rekeyed toy_init in
+   shares_differ s = false /\ chn s <> Some (s_share (sv s)) /\ chn s <> None /\
+   s_seen s <> [[7; 8; 9]; [1; 2; 3]] /\ c_seen s <> [[10; 11; 12]; [4; 5; 6]] /\
+   safe toy_pub toy_dh false true chan_rekeyed toy_init = false) /\
+  (let s := toy_run chan_rekeyed toy_init in
+   shares_differ s = false /\ chn s = Some (s_share (sv s)) /\
+   s_seen s = [[7; 8; 9]; [1; 2; 3]] /\ c_seen s = [[10; 11; 12]; [4; 5; 6]] /\
+   safe toy_pub toy_dh false false chan_rekeyed toy_init = true).
 Proof. cbv zeta. ands; try (vm_compute; reflexivity); vm_compute; intros H; discriminate H. Qed.
 
 (* non-vacuity material: a long admissible history in the toy agreement that exercises every event
@@ -537,11 +679,14 @@ Definition busy_history : list (event Z) :=
    BatchSend 23 [1; 2]; RekeyRecv []; ReplyRecv; DataSend [1; 2]; RekeyRecv []; ReplyRecv;
    Forget 29; DataSend [3]; RekeyRecv []; Reregister 31; RekeyRecv []; HelloReply;
    RekeySend 37; RekeyRecv [2]; ReplyRecv;
+   ChanStart; ChanUp [5; 5]; ChanTick 41; ChanDown [6; 6]; DataSend [0]; RekeySend 47; ChanUp [5]; ChanEnd;
+   RekeySend 43; RekeyRecv []; ReplyRecv;
    DataSend [4; 5]; RekeyRecv [6; 7]; ReplyRecv].
 
 Lemma busy_history_ok :
-  safe toy_pub toy_dh false busy_history toy_init = true /\
+  safe toy_pub toy_dh false false busy_history toy_init = true /\
   (let s := toy_run busy_history toy_init in
    waiting s = false /\ s_reg (sv s) = true /\ shares_differ s = false /\ is_synced (c_share (cl s)) = true /\
-   c_seen s = [[6; 7]; [2]; [1]; [8]] /\ s_seen s = [[4; 5]; [1; 2]; [7]; [9; 9]]).
+   chn s = None /\
+   c_seen s = [[6; 7]; [6; 6]; [2]; [1]; [8]] /\ s_seen s = [[4; 5]; [5]; [5; 5]; [1; 2]; [7]; [9; 9]]).
 Proof. cbv zeta. ands; vm_compute; reflexivity. Qed.
